@@ -138,6 +138,17 @@ def _writer(dev, kind, marker):
                 d = tr.get_descriptor(handle)
                 d.Unit = pm_types.CodedValue(f'unit{marker}')
         return w
+    if kind == 'waveform':
+        handle = sorted(d.Handle for d in mdib.descriptions.NODETYPE.get(pmn.RealTimeSampleArrayMetricDescriptor))[0]
+
+        def w():
+            with mdib.rt_sample_state_transaction() as tr:
+                st = tr.get_state(handle)
+                if st.MetricValue is None:
+                    st.mk_metric_value()
+                st.MetricValue.Samples = [Decimal(marker), Decimal(marker + 1)]
+                st.MetricValue.DeterminationTime = 1700000000.0 + marker
+        return w
     if kind == 'alert':
         handle = sorted(d.Handle for d in mdib.descriptions.NODETYPE.get(pmn.AlertConditionDescriptor))[0]
 
